@@ -4,6 +4,8 @@
 //!        e57sim --child <PROP> --tier T --seed N --from A --to B   (internal)
 
 mod adapter;
+mod alloc;
+mod corrupt;
 mod gen;
 mod history;
 mod model;
@@ -16,6 +18,9 @@ mod simdisk;
 mod view;
 
 use runner::*;
+
+#[global_allocator]
+static GLOBAL: alloc::Counting = alloc::Counting;
 use std::path::PathBuf;
 
 fn dispatch<P: Prop>(p: &P, mode: &Mode, opts: &Options) -> i32 {
@@ -108,6 +113,9 @@ fn main() {
         "C03" => dispatch(&props::c03::C03, &mode, &opts),
         "C05" => dispatch(&props::c05::C05, &mode, &opts),
         "C06" => dispatch(&props::c06::C06, &mode, &opts),
+        "C07" => dispatch(&props::c07::C07, &mode, &opts),
+        "C08" => dispatch(&props::c08::C08, &mode, &opts),
+        "C09" => dispatch(&props::c08::C09, &mode, &opts),
         "C10" => dispatch(&props::c10::C10, &mode, &opts),
         "C11" => dispatch(&props::c11::C11, &mode, &opts),
         "C15" => dispatch(&props::c15::C15, &mode, &opts),
